@@ -7,7 +7,7 @@
    node not created in this transaction) and create_node freshness. *)
 From Coq Require Import List NArith Bool.
 Import ListNotations.
-Require Import RV.Model.C12_Track RV.Model.C12_View RV.Model.C02_ResultType RV.Proof.C12_Main RV.Proof.C02_Result.
+Require Import RV.Model.C12_Track RV.Model.C12_View RV.Model.C02_ResultType RV.Proof.C12_Main RV.Proof.C12_Updates RV.Proof.C02_Result.
 Open Scope N_scope.
 
 (* the three unwrap()s of revert_non_force_write_changes are unreachable *)
@@ -23,6 +23,16 @@ Theorem C02_revert_keeps_only_force_writes : forall db t s t' n p k,
   snd (fst (get_substate db t' n p k)) = match fw_get (v_fw s) n p k with Some x => x | None => al_get k (db n p) end
   /\ forall n', node_is_new (t_nodes t') n' = false.
 Proof. exact revert_view. Qed.
+
+(* the StateUpdates of the reverted track: committing them to the base database changes exactly the
+   force-written keys, to their force-written values (every other key keeps its database value), and
+   no node is reported as new *)
+Theorem C02_revert_updates_only_force_writes : forall db t s t' n p k, db_wf db -> reach db t s ->
+  no_blind_overwrite db t -> revert t = Some t' -> iset_mem (n, p) (v_del s) = false ->
+  apply_su (snd (to_state_updates t')) db n p k =
+    match fw_get (v_fw s) n p k with Some x => x | None => al_get k (db n p) end
+  /\ fst (to_state_updates t') = [].
+Proof. exact revert_updates_only_force_writes. Qed.
 
 (* rejected and aborted transactions have no state-update component; a failure commits only when the
    loan was fully repaid and the error is not an abort; commits of failures go through revert *)
@@ -54,6 +64,7 @@ Proof. vm_compute. split; reflexivity. Qed.
 
 Print Assumptions C02_revert_no_panic.
 Print Assumptions C02_revert_keeps_only_force_writes.
+Print Assumptions C02_revert_updates_only_force_writes.
 Print Assumptions C02_reject_abort_empty.
 Print Assumptions C02_commit_failure_iff.
 Print Assumptions C02_failure_receipt_reverts.
